@@ -97,15 +97,20 @@ def evaluate(case):
         plain = case["plain"]
         ins = case["ins"]  # list of [position in plain 0..len, q-index]
         spans = [tuple(s) for s in case["spans"]]
-        if any(ch not in P for ch in plain) or not plain:
+        if any(ch not in P and not (case.get("multiline") and ch == "\n") for ch in plain) or not plain:
             return res
+        if case.get("multiline"):
+            res.label("multiline")
         srt = sorted(spans)
         if any(not (0 <= a < b <= len(plain)) for a, b in spans) or any(x[1] > y[0] for x, y in zip(srt, srt[1:])):
             return res
         by_pos = {}
         for pos_, qi in ins:
             if 0 <= pos_ <= len(plain):
-                by_pos.setdefault(pos_, []).append(Q[qi % len(Q)])
+                q = Q[qi % len(Q)]
+                if case.get("multiline") and ("\n" in q or "\r" in q):
+                    q = "zz"
+                by_pos.setdefault(pos_, []).append(q)
         src = ""
         pos = []
         for i, ch in enumerate(plain):
@@ -208,6 +213,21 @@ def _forced(draw):
     return {"kind": "forced", "plain": plain, "ins": ins, "spans": spans, "rev": draw(st.booleans())}
 
 
+@st.composite
+def _forced_lines(draw):
+    """Long (> 100 characters) multi-line plain text made of repeated identical lines; insertions from the foreign
+    alphabet (without line breaks) land in some copies only. The alignment is still forced."""
+    lines = draw(st.lists(st.lists(st.sampled_from(P), min_size=4, max_size=14).map("".join), min_size=2, max_size=4))
+    seq = draw(st.lists(st.integers(0, len(lines) - 1), min_size=8, max_size=16))
+    plain = "\n".join(lines[i] for i in seq)
+    n = len(plain)
+    qidx = [i for i, q in enumerate(Q) if "\n" not in q and "\r" not in q]
+    ins = draw(st.lists(st.tuples(st.integers(0, n), st.sampled_from(qidx)).map(list), min_size=1, max_size=12))
+    cuts = sorted(draw(st.lists(st.integers(0, n), min_size=2, max_size=8, unique=True)))
+    spans = [[cuts[i], cuts[i + 1]] for i in range(0, len(cuts) - 1, 2)]
+    return {"kind": "forced", "plain": plain, "ins": ins, "spans": spans, "rev": draw(st.booleans()), "multiline": True}
+
+
 _ALPH = list("ab c.,1<>/i\n&") + ["<i>", "</i>", "  "]
 
 
@@ -237,5 +257,6 @@ def phases(tier):
     return [
         Phase("no-source", "gen", strategy=_nosource, n=n),
         Phase("forced-alignment", "gen", strategy=_forced, n=n),
+        Phase("forced-alignment-long-multiline", "gen", strategy=_forced_lines, n=n // 4),
         Phase("string-pairs", "gen", strategy=_pair, n=n),
     ]
